@@ -943,6 +943,11 @@ class String2Key(Field):
     def __bytearray__(self):
         _bytes = bytearray()
         _bytes.append(self.usage)
+        if self.legacy:
+            # the usage octet is the cipher: there is no specifier, only the IV follows
+            if self.iv is not None:
+                _bytes += self.iv
+            return _bytes
         if bool(self):
             _bytes.append(self.encalg)
             _bytes.append(self.specifier)
@@ -973,10 +978,16 @@ class String2Key(Field):
         return len(self.__bytearray__())
 
     def __bool__(self):
-        return self.usage in [254, 255]
+        return self.usage != 0
 
     def __nonzero__(self):
         return self.__bool__()
+
+    @property
+    def legacy(self):
+        # RFC 4880 5.5.3: a usage octet other than 0, 254 and 255 is the id of the cipher that protects the secret
+        # key material, and its key is the MD5 hash of the passphrase (3.7.2.1)
+        return self.usage not in [0, 254, 255]
 
     def __copy__(self):
         s2k = String2Key()
@@ -994,6 +1005,16 @@ class String2Key(Field):
     def parse(self, packet, iv=True):
         self.usage = packet[0]
         del packet[0]
+
+        if self.legacy:
+            # no specifier is stored: it is implied by the usage octet, and (for a key) the IV follows at once
+            self.encalg = self.usage
+            self.specifier = String2KeyType.Simple
+            self.halg = HashAlgorithm.MD5
+            if iv:
+                self.iv = packet[:(self.encalg.block_size // 8)]
+                del packet[:(self.encalg.block_size // 8)]
+            return
 
         if bool(self):
             self.encalg = packet[0]
@@ -1314,8 +1335,8 @@ class PrivKey(PubKey):
             # of the key material block
             raise PGPDecryptionError("Passphrase was incorrect!")
 
-        if self.s2k.usage == 255 and not self.bytes_to_int(pt[-2:]) == (sum(bytearray(pt[:-2])) % 65536):  # pragma: no cover
-            # if the usage byte is 255, key material is followed by a 2-octet checksum of the rest
+        if self.s2k.usage != 254 and not self.bytes_to_int(pt[-2:]) == (sum(bytearray(pt[:-2])) % 65536):  # pragma: no cover
+            # if the usage byte is 255 or a cipher id, key material is followed by a 2-octet checksum of the rest
             # of the key material block
             raise PGPDecryptionError("Passphrase was incorrect!")
 
